@@ -330,7 +330,7 @@ theorem receive_gen (env : Env) (EB : Bundle → Eid → Prop) (hEB : EClass EB)
   simp only at hother ⊢
   by_cases hemp : Dc.isEmpty = true
   · simp only [hemp, Bool.not_true, Bool.false_eq_true, if_false] at hother ⊢
-    rcases receive_m b r n ⟨b.key, Dr, Dc, Db⟩ hD.symm hemp with ⟨itm, hgm, hbm⟩
+    rcases receive_m b r n ⟨b.key, Dr, Dc, Db⟩ hemp with ⟨itm, hgm, hbm⟩
     simp only at hgm
     generalize hm : sync { key := b.key, receiver := r, cons := { Dc with dp := true }, bndl := some b }
       (sync { key := b.key, receiver := r, cons := Dc, bndl := some b }
@@ -625,7 +625,7 @@ theorem receive_cons (env : Env) (b : Bundle) (r : Option Eid) (n : Node) (w : W
     simp only
     by_cases hemp : Dc.isEmpty = true
     · simp only [hemp, Bool.not_true, Bool.false_eq_true, if_false]
-      rcases receive_m b r n ⟨b.key, Dr, Dc, Db⟩ hD.symm hemp with ⟨itm, hgm, _⟩
+      rcases receive_m b r n ⟨b.key, Dr, Dc, Db⟩ hemp with ⟨itm, hgm, _⟩
       simp only at hgm
       generalize hm : sync { key := b.key, receiver := r, cons := { Dc with dp := true }, bndl := some b }
         (sync { key := b.key, receiver := r, cons := Dc, bndl := some b }
